@@ -77,7 +77,8 @@ def _exhaustive_types():
     leaves = [P.T_INT, P.T_BOOL, P.T_FLOAT, P.T_STR, P.T_ANY, P.T_NONE, P.TEnum("Color"), P.TLit(P.XInt(1), P.XStr("a")),
               P.TLit(P.XBool(True)), P.TBare("CTuple"), P.TBare("CSequence"), P.TTup(), P.TNew(P.T_INT)]
     elems = [t for t in leaves if t is not P.T_NONE]
-    unions = [P.TUnion(a, b) for i, a in enumerate(leaves) for b in leaves[i + 1:]]
+    unions = [u for i, a in enumerate(leaves) for b in leaves[i + 1:] if (u := P.mk_union([a, b])).name == "TUnion" and len(u.args[0]) == 2
+              and u.args[0][0] == a]
     d2 = list(leaves) + unions
     for e in elems + unions[:12]:
         d2 += [P.TTupV(e), P.TTup(e), P.TGen("CFrozenset", e), P.TGen("CSequence", e)]
@@ -88,7 +89,7 @@ def _exhaustive_types():
     d3 = []
     for e in d2:
         if e.name in ("TTupV", "TTup", "TGen") and not P.mentions_node(e):
-            d3 += [P.TTupV(e), P.TUnion(e, P.T_NONE), P.TTup(P.T_INT, e)]
+            d3 += [P.TTupV(e), P.mk_union([e, P.T_NONE]), P.TTup(P.T_INT, e)]
     return d2 + d3
 
 
